@@ -81,6 +81,10 @@ def statements_pool():
         lambda id, dep: ConditionalAssignment(lhs=p.Subscript(c, a), rhs=b_, condition=p.LogicalAnd((p.Comparison(i, ">", 0), a)), id=id, depends_on=dep),
         lambda id, dep: Nop(id=id, depends_on=dep),
         lambda id, dep: Assignment(b_, a, id=id, depends_on=dep),
+        # subscripts and attribute look-ups on the right-hand side and in the condition; identifiers that look like generated fresh names
+        lambda id, dep: Assignment(a, p.Sum((p.Subscript(b_, i), p.Lookup(c, "re"))), id=id, depends_on=dep),
+        lambda id, dep: ConditionalAssignment(lhs=b_, rhs=p.Subscript(a, (i, p.Variable("a_0"))), condition=p.Comparison(p.Subscript(c, i), ">", p.Lookup(p.Variable("i_0"), "lo")), id=id, depends_on=dep),
+        lambda id, dep: Assignment(p.Variable("a_0"), p.Product((a, p.Variable("c_0"))), id=id, depends_on=dep),
     ]
 
 
@@ -212,6 +216,35 @@ def bounded(tier, seed, procs):
                 b3.fail(Failure("disambiguate", f"cause={cause} filter={fname} a={[str(s) for s in A]} b={[str(s) for s in B]} why={why}",
                                 dict(kind="disamb", a=[str(s) for s in A], b=[str(s) for s in B], filter=fname), expected="exactly the clashing identifiers renamed consistently", actual=why,
                                 functions=["disambiguate_identifiers", "get_all_used_identifiers"]))
+    # disambiguate_and_fuse = disambiguation of the second stream against the first, then fusion: checked structurally
+    for A, B in trees.thin(list(itertools.product(small, small)), 400 if tier == "thorough" else 150, seed=6):
+        for fname, flt in filters.items():
+            r = outcome.run(lambda: disambiguate_and_fuse(A, B, flt))
+            b3.case(("daf", tuple(str(q) for q in A), tuple(str(q) for q in B), fname), sample=dict(a=[str(q) for q in A], b=[str(q) for q in B], filter=fname, function="disambiguate_and_fuse"))
+            why = None
+            if r[0] != "val" or len(r[1]) != 3:
+                why = outcome.describe(r)[:150]
+            else:
+                fused, subst, idmap = r[1]
+                refB = outcome.run(lambda: disambiguate_identifiers(A, B, flt))
+                if refB[0] != "val":
+                    continue
+                newB, subst_ref = refB[1]
+                if {k: str(v) for k, v in subst.items()} != {k: str(v) for k, v in subst_ref.items()}:
+                    why = f"substitution {subst} differs from disambiguate_identifiers' {subst_ref}"
+                else:
+                    why = check_fused(A, newB, ("val", (fused, idmap)))
+                    if why is None:
+                        idsA = set().union(*[ref_reads(q) | ref_writes(q) for q in A]) if A else set()
+                        idsB2 = set().union(*[ref_reads(q) | ref_writes(q) for q in fused[len(A):]]) if B else set()
+                        left = {n_ for n_ in idsA & idsB2 if (flt is None or flt(n_)) and n_ in set().union(*[ref_reads(q) | ref_writes(q) for q in B])}
+                        lib = outcome.run(lambda: get_all_used_identifiers(A) & get_all_used_identifiers(B))
+                        if left and not (lib[0] == "val" and not (left & {n_ for n_ in lib[1]})):
+                            why = f"fused stream: the second part still shares {sorted(left)} with the first"
+            if why:
+                b3.fail(Failure("disambiguate", f"cause=other function=disambiguate_and_fuse filter={fname} a={[str(q) for q in A]} b={[str(q) for q in B]} why={why[:150]}",
+                                dict(kind="daf", a=[str(q) for q in A], b=[str(q) for q in B], filter=fname), expected="fuse(A, disambiguate(A, B))", actual=why[:200],
+                                functions=["disambiguate_and_fuse"]))
     # argument forms: the streams given as tuples, iterators and generators give what the lists give
     for A, B in trees.thin(list(itertools.product(small, small)), 80, seed=5):
         for fn_name, fn in (("fuse", fuse_statement_streams_with_unique_ids), ("disambiguate", disambiguate_identifiers), ("disambiguate_and_fuse", disambiguate_and_fuse)):
@@ -247,6 +280,9 @@ def bounded(tier, seed, procs):
 
     def drawn(stmts):
         dot = get_dot_dependency_graph(stmts, use_stmt_ids=True)
+        declared = {m.group(1) for m in re.finditer(r'^"(\w+)" \[label="(\w+)"', dot, re.M) if m.group(1) == m.group(2)}
+        if declared != {s_.id for s_ in stmts}:
+            raise AssertionError(f"declared nodes {sorted(declared)} are not the statement ids {sorted(s_.id for s_ in stmts)}")
         return {(m.group(1), m.group(2)) for m in re.finditer(r"^(\w+) -> (\w+)$", dot, re.M)}
     graphs = []
     for n in range(1, 5):
